@@ -307,6 +307,9 @@ class Lowering:
         en = self.find_enum(t)
         if en is not None:
             return const + self.enum_cname(en)
+        td = self.find_typedef(t)
+        if td is not None:
+            return const + self.ctype(td)
         raise Unsupported('type %r has no C mapping' % t)
 
     def mapped_scalar(self, t):
@@ -321,6 +324,17 @@ class Lowering:
                 n = self.tu.by_id[nid]
                 if n.get('kind') in ('CXXRecordDecl', 'ClassTemplateSpecializationDecl') and n.get('completeDefinition'):
                     return n
+        return None
+
+    def find_typedef(self, qname):
+        for nid, q in self.tu.qual.items():
+            if q == qname:
+                n = self.tu.by_id[nid]
+                if n.get('kind') in ('TypedefDecl', 'TypeAliasDecl'):
+                    t = n.get('type') or {}
+                    u = t.get('desugaredQualType') or t.get('qualType')
+                    if u and u != qname:
+                        return u
         return None
 
     def find_enum(self, qname):
@@ -655,7 +669,11 @@ class Lowering:
                 return ['return *self;']
             return ['return;']
         ctx = Ctx(fs)
-        e = self.expr(ks[0], ctx)
+        fq = fs.decl['type'].get('desugaredQualType') or fs.decl['type']['qualType']
+        if fs.decl.get('kind') != 'CXXConstructorDecl' and self.returns_ref(fq):
+            e = self.addr_of(ks[0], ctx)
+        else:
+            e = self.expr(ks[0], ctx)
         return ctx.pre + ['return %s;' % e]
 
     def s_IfStmt(self, n, fs):
@@ -1203,6 +1221,9 @@ class Lowering:
         t = ty(n)
         ctor_t = n['ctorType']['qualType']
         args = kids(n)
+        for pat in self.cfg.get('functor_types', []):
+            if re.fullmatch(pat, self.strip_cvref(t)):
+                return '0'      # stateless function object: no value to carry
         mapped = self.mapped_scalar(self.strip_cvref(t))
         if mapped is not None:
             if len(args) == 0:
